@@ -846,6 +846,11 @@ func stateAfterObjectValue(s *Scanner, c byte) state {
 		return scanContinue
 	}
 	if c == ',' {
+		// The next property may be annotated whatever the value before the
+		// comma was (the same as after an array item).
+		if s.annotation == annotationNone {
+			s.allowAnnotation = true
+		}
 		s.step = stateFoundObjectKeyBegin
 		return scanContinue
 	}
